@@ -187,7 +187,7 @@ def errors_stream(ctx, n):
             e[rng.choice([i for i in range(dim) if True])] = rng.choice([1, -1, 2])
             cand = (np.array(pts[off]) + np.array(e)).tolist()
             pts[off] = cand
-        if k % 6 == 1:
+        if k % 3 == 1:
             # a repeated point (given by another representative) next to one point off the line: every pair of positions
             a = np.array([rng.randint(-3, 3) for _ in range(dim)] + [1])
             d = np.array([rng.randint(-2, 2) for _ in range(dim)] + [0])
@@ -198,8 +198,9 @@ def errors_stream(ctx, n):
             e[rng.randrange(dim)] = rng.choice([1, -1, 2])
             if np.linalg.matrix_rank(np.array([a + t1 * d, a + t2 * d, a + t1 * d + e], dtype=float)) < 3:
                 continue
-            rep, offp = rng.sample(range(4), 2)
-            rest = [i for i in range(4) if i not in (rep, offp)]
+            # every assignment of the roles (same point twice, other point of the line, point off the line) to the four positions
+            order = rng.sample(range(4), 4)
+            rest, rep, offp = [order[0], order[1]], order[2], order[3]
             pts = [None] * 4
             pts[rest[0]], pts[rest[1]] = (a + t1 * d).tolist(), (a + t2 * d).tolist()
             pts[rep] = (rng.choice([2, -1, 3]) * (a + t1 * d)).tolist()       # the same point as pts[rest[0]]
